@@ -154,7 +154,7 @@ def run(ctx: Ctx) -> Result:
         memo: Dict[Tuple[str, Any], Tuple[Any, Any]] = {}
 
         def step(rname, rw, X, vals):
-            key = (rname, O.struct(X))
+            key = (rname, O.ostruct(X))
             if key not in memo or vals:
                 res.transitions += 1
                 res.evaluations += 1
